@@ -12,6 +12,7 @@ import (
 	authtypes "github.com/cosmos/cosmos-sdk/x/auth/types"
 	vestingtypes "github.com/cosmos/cosmos-sdk/x/auth/vesting/types"
 	"github.com/cosmos/cosmos-sdk/x/authz"
+	"github.com/cosmos/cosmos-sdk/x/group"
 	banktypes "github.com/cosmos/cosmos-sdk/x/bank/types"
 	crisistypes "github.com/cosmos/cosmos-sdk/x/crisis/types"
 	distrtypes "github.com/cosmos/cosmos-sdk/x/distribution/types"
@@ -92,6 +93,10 @@ func RequiredSigners(msg sdk.Msg) []string {
 		return []string{x.Granter}
 	case *authz.MsgExec:
 		return []string{x.Grantee}
+	case *group.MsgSubmitProposal:
+		return x.Proposers
+	case *group.MsgCreateGroupWithPolicy:
+		return []string{x.Admin}
 	}
 	return nil
 }
@@ -128,7 +133,7 @@ func (w *World) SignerIndexes(msgs []sdk.Msg) (idx []int, ok bool) {
 // ---- C15 -----------------------------------------------------------------------------------
 
 func (w *World) checkC15(obs *TxObs) error {
-	if obs.Step.Exec > 0 || len(obs.Outer) == 0 {
+	if obs.Step.Wrapped() || len(obs.Outer) == 0 {
 		return nil
 	}
 	for _, m := range obs.Outer {
